@@ -153,6 +153,14 @@ def _chainrule(ctx: Ctx, mod) -> None:
                 ev.env[s.targets[0].id] = ev.ev(s.value)
             elif isinstance(s, (ast.Expr, ast.Pass)):
                 continue
+            elif isinstance(s, ast.If) and any(isinstance(n_, ast.Return) for n_ in ast.walk(s)):
+                # the derivative of x_i / sum(x) is delta_ij / S - x_i / S**2 for EVERY x, also where sum(x) == 1
+                # (there it is I - x 1^T, not I): a data-dependent shortcut that returns before the chain rule is applied
+                # leaves the derivatives w.r.t. the normalised fractions in place
+                if n == 2:
+                    ctx.check("R1", False, mod, q, s, f"a data-dependent branch (`if {u(s.test)[:60]}`) returns before the chain rule is applied: "
+                              f"the Jacobian of x/sum(x) is never the identity, also not where sum(x) == 1", construct=f"{q}: conditional return before the chain rule")
+                continue
             else:
                 raise Undecided(f"{q}: statement {u(s)[:50]}")
         mat_name = u(app.value.args[0])
@@ -338,6 +346,7 @@ def _m(name, old, new, rule, control=False, count=1, accept_undecided=False):
 
 
 MUTANTS = [
+    _m("seed-already-normalised-shortcut", "    x_sum = np.sum(x)\n", "    x_sum = np.sum(x)\n    if np.abs(x_sum - 1.0) < 1e-14:\n        return df_dx\n", "R1"),
     _m("dxn-missing-square", "np.outer(x, np.ones(ncomp)) / (x_sum**2)", "np.outer(x, np.ones(ncomp)) / (x_sum)", "R1", control=True),
     _m("dxn-transposed-outer", "np.outer(x, np.ones(ncomp)) / (x_sum**2)", "np.outer(np.ones(ncomp), x) / (x_sum**2)", "R1"),
     _m("dxn-plus", "dxn = np.eye(ncomp) / x_sum - np.outer", "dxn = np.eye(ncomp) / x_sum + np.outer", "R1"),
